@@ -5,10 +5,13 @@ Enumerated completely: every labelled bond graph with a vertex of degree >= 2 on
 exactly collinear along x, y, z, (1,1,0), (1,1,1), (1,2,3)) x target sizes x 3
 placements x 5 scale factors.  Oracle: the brute-force reference ``ref_map``.
 """
+import os
+
 import numpy as np
 
 from mcx.core import Check
 from mcx.ref import exmap as xm
+from mcx.seams import owned_random
 
 SCALES = (1.0, 0.5, 0.25, 1.5, 2.0)
 PLACES = ('near', 'between', 'far')
@@ -25,7 +28,7 @@ class C01(Check):
                  'scale factors on the real ExchangeMap, compared with a brute-force reference map')
     level_text = ('every labelled graph on 3..4 (quick) / 3..5 (thorough) atoms with an anchor, in 8 geometry classes '
                   '(incl. exactly collinear along 6 directions and axis-aligned right angles), targets of 1-3 '
-                  '(thorough also 6 and 40) atoms in 3 tie-free placements, 5 scale factors in (0, 2], all executed on '
+                  '(thorough also 6, and 40 on references up to 4 atoms) atoms in 3 tie-free placements, 5 scale factors in (0, 2], all executed on '
                   'the real code; a coverage statement over this finite product, not a proof for all reals')
     level_note = ('trusted: numpy arithmetic, the graph enumerator (self-tested against closed-form counts), the '
                   'in-memory builders (real parsers), the brute-force reference ref_map; not covered: near-collinear '
@@ -37,7 +40,7 @@ class C01(Check):
 
     def units(self, tier, seed):
         nmax = 5 if tier == 'thorough' else 4
-        sizes = [1, 2, 3, 6, 40] if tier == 'thorough' else [1, 2, 3]
+        sizes = {'n<=4': [1, 2, 3, 6, 40], 'n=5': [1, 2, 3, 6]} if tier == 'thorough' else [1, 2, 3]
         self.bounds = {'ref_atoms': [3, nmax], 'graphs': {n: len(xm.ref_graphs(n)) for n in range(3, nmax + 1)},
                        'geometry_classes': list(xm.GEO), 'target_sizes': sizes, 'placements': list(PLACES),
                        'scale_factors': list(SCALES), 'tolerance_nm': TOL, 'tie_margin_nm': xm.MARGIN}
@@ -45,15 +48,19 @@ class C01(Check):
         for n in range(3, nmax + 1):
             mod = {3: 1, 4: 6, 5: 32}[n]
             for geo in xm.GEO:
-                if n == 5:
-                    u += [{'n': n, 'geo': [geo], 'mod': mod, 'r': r} for r in range(mod)]
-                else:
-                    u += [{'n': n, 'geo': [geo], 'mod': mod, 'r': r} for r in range(mod)]
+                u += [{'n': n, 'geo': [geo], 'mod': mod, 'r': r} for r in range(mod)]
+        if os.environ.get('MCX_NEAR_COLLINEAR'):
+            # opt-in, outside the stated alphabet (DESIGN section 5): anchors that are NEARLY collinear,
+            # sin(angle) just above the library's 1e-10 fallback threshold.  Own signatures map/near_col_*.
+            self.bounds['geometry_classes'] = list(xm.GEO) + list(xm.NEAR)
+            for n in (3, 4):
+                u += [{'n': n, 'geo': [geo], 'mod': 1, 'r': 0} for geo in xm.NEAR]
         return u
 
     def cases(self, unit, tier, seed):
-        sizes = [1, 2, 3, 6, 40] if tier == 'thorough' else [1, 2, 3]
         n = unit['n']
+        # thorough: 6-atom target everywhere, the 40-atom target on references up to 4 atoms
+        sizes = [1, 2, 3] + ([6] if tier == 'thorough' else []) + ([40] if tier == 'thorough' and n <= 4 else [])
         for i, edges in enumerate(xm.ref_graphs(n)):
             if i % unit['mod'] != unit['r']:
                 continue
@@ -64,6 +71,12 @@ class C01(Check):
 
     # ------------------------------------------------------------------
     def check_case(self, case, R, seed):
+        # references of >= 3 atoms draw nothing; own np.random anyway so that a change that starts
+        # drawing stays deterministic (and replayable)
+        with owned_random(lambda kind, a, k: np.array([0.31, 0.77, 0.52])):
+            self._run(case, R, seed)
+
+    def _run(self, case, R, seed):
         from gaddlemaps import ExchangeMap
         n, edges, geo, m, place = case['n'], case['edges'], case['geo'], case['m'], case['place']
         anch = xm.anchors(n, edges)
